@@ -36,6 +36,10 @@ type raceJob struct {
 	Transform  int            `json:"transform"`
 	TransformE int            `json:"transform_e"`
 	SeqFirst   bool           `json:"seq_first"`
+	// round 7 (see harness/c19race/main.go): the loads share ONE ConfigDetails / []ConfigFile (file names only) and ONE
+	// options-function list per input; the project name is a guess, so that the loader looks for `name:` in the files
+	ShareInputs bool `json:"share_inputs,omitempty"`
+	GuessName   bool `json:"guess_name,omitempty"`
 }
 
 type raceReal struct {
@@ -302,8 +306,29 @@ func judgeRace(args, real, _ json.RawMessage) *core.Verdict {
 	if j.ShareEnv {
 		shared = ":shared-environment"
 	}
+	// round 7: a shared input value (other than the environment map) that differs after the loads is reported first: it is
+	// deterministic, and the racing pair it causes may sit in the same function as the recorded environment-map write
+	var om struct {
+		Mutated []string `json:"mutated"`
+	}
+	if len(r.Out) > 0 {
+		json.Unmarshal(r.Out, &om)
+	}
+	envMutation := ""
+	for _, m := range om.Mutated {
+		what, _, _ := strings.Cut(m, ":")
+		if what == "environment" {
+			envMutation = m
+			continue
+		}
+		return core.Fail("input-mutated:"+what, fmt.Sprintf("a load wrote to an input value that concurrent loads share by reference: %v; races reported: %v\n%s", om.Mutated, r.Races, r.RaceText))
+	}
 	if len(r.Races) > 0 {
 		key := r.Races[0]
+		if !j.ShareEnv && key == "race-write@loader.projectName" {
+			// the recorded finding under that key is the store into a SHARED environment map; here every load has its own
+			key += ":environment-not-shared"
+		}
 		if j.ShareEnv {
 			// one root cause (the store into the caller's environment map) shows up as several racing pairs; name it first,
 			// but only after every key that is NOT a consequence of it
@@ -357,6 +382,13 @@ func judgeRace(args, real, _ json.RawMessage) *core.Verdict {
 			return core.Fail("traversal:free-running:wrong-order-or-count", o.TransformWrong[0])
 		}
 		return core.Fail("fanout:free-running:wrong-result", o.TransformWrong[0])
+	}
+	if envMutation != "" {
+		if envMutation == "environment: +COMPOSE_PROJECT_NAME" {
+			// the recorded defect (findings/C19.txt), seen without the race detector noticing a racing pair
+			return core.Fail("race-write@loader.projectName", "the shared environment map was extended by a load: "+envMutation)
+		}
+		return core.Fail("input-mutated:environment", "the shared environment map differs after the loads: "+envMutation)
 	}
 	return nil
 }
